@@ -30,6 +30,9 @@ type c15Case struct {
 	SA     string        `json:"arg_scalar,omitempty"`
 	SB     string        `json:"arg_scalar2,omitempty"`
 	U      uint64        `json:"u,omitempty"`
+	// NonCanon: the *Scalar arguments carry non-reduced limbs (n + k, written through the exported field S): still
+	// caller-owned memory that must not be written.
+	NonCanon bool `json:"non_canonical_scalar_args,omitempty"`
 }
 
 var (
@@ -37,6 +40,7 @@ var (
 	c15HashFns   = []string{"HashToGroup", "EncodeToGroup", "HashToScalar"}
 	c15DataFns   = []string{"Element.Decode", "Element.DecodeCompressed", "Element.DecodeUncompressed", "Element.UnmarshalBinary", "Scalar.Decode", "Scalar.UnmarshalBinary"}
 	c15PtrFns    = []string{"Element.Add", "Element.Subtract", "Element.Equal", "Element.Set", "Element.Multiply", "Scalar.Add", "Scalar.Subtract", "Scalar.Multiply", "Scalar.Set", "Scalar.Pow", "Scalar.Equal", "Scalar.LessOrEqual", "Scalar.CSelect"}
+	c15RetainFns = []string{"Element.Decode", "Element.DecodeCompressed", "Element.DecodeUncompressed", "Element.UnmarshalBinary", "Element.DecodeHex", "Scalar.Decode", "Scalar.UnmarshalBinary"}
 	c15FreshFns  = []string{"Element.Encode", "Element.EncodeUncompressed", "Element.XCoordinate", "Element.MarshalBinary", "Scalar.Encode", "Scalar.MarshalBinary", "Order", "constructors", "Element.Copy", "Scalar.Copy", "Scalar.Bits"}
 )
 
@@ -48,14 +52,14 @@ func init() {
 			"slice ending exactly at the end of the mapping before a PROT_NONE page, zero-length slice of a non-empty array; DST lengths on both sides of 255/256; valid, rejected and panicking (empty DST) calls; " +
 			"pointer arguments of Add/Subtract/Equal/Set/Multiply and of the scalar binary operations, Pow, LessOrEqual, CSelect. Monitors: (trap) the arguments live in mmap'd pages made PROT_READ for the duration of the call, any store raises a fault whose address is mapped back to (object, offset, writer frame); " +
 			"(canary) the same call on ordinary memory with the whole backing array (prefix gap, payload, spare capacity, suffix gap) compared byte for byte afterwards; (fresh) every slice-returning function called twice: address ranges over full capacity must not overlap each other nor the receiver, " +
-			"and scribbling over b[:cap(b)] must change neither the source value nor the next result. non-trivial = all; distinct by the whole case.",
+			"and scribbling over b[:cap(b)] must change neither the source value nor the next result; (retain) an object decoded from a caller buffer must not keep that buffer: later encodings may not overlap it, overwriting the buffer must not change the object, and writing to an encoding must not change the buffer. Scalar arguments are also passed with non-reduced limbs (n+k written through the exported field S). non-trivial = all; distinct by the whole case.",
 		NewCase:  func() any { return &c15Case{} },
 		Generate: c15Generate,
 		Run:      c15Run,
 		Require: func(string) map[string]int64 {
 			return map[string]int64{
 				"mode:trap": 2000, "mode:canary": 2000, "layout:spare1": 100, "layout:spare8": 100, "layout:spare64": 100, "layout:interior": 100, "layout:page-end": 100, "layout:zero-len": 20,
-				"kind:ptr": 1000, "kind:fresh": 500, "trap-liveness-probe-fired": 1, "dst:oversize": 100, "dst<=255": 300, "call:rejected": 100, "call:panicked": 6,
+				"kind:ptr": 1000, "kind:fresh": 500, "kind:retain": 100, "ptr:non-canonical-scalar-args": 100, "trap-liveness-probe-fired": 1, "dst:oversize": 100, "dst<=255": 300, "call:rejected": 100, "call:panicked": 6,
 			}
 		},
 	})
@@ -136,6 +140,21 @@ func c15Generate(c *mon.Ctx) {
 			e := mon.MkElemCase(pv, reprs[i%len(reprs)])
 			cs := &c15Case{Kind: "fresh", Fn: fn, E: &e, S: svals[i%len(svals)]}
 			c.Structured(func() any { return cs })
+		}
+
+		for _, fn := range c15RetainFns {
+			e := mon.MkElemCase(pv, reprs[0])
+			cs := &c15Case{Kind: "retain", Fn: fn, E: &e, S: svals[i%len(svals)]}
+			c.Structured(func() any { return cs })
+		}
+
+		for j, fn := range c15PtrFns {
+			if len(fn) > 7 && fn[:7] == "Scalar." || fn == "Element.Multiply" {
+				e, ea := mon.MkElemCase(pv, reprs[0]), mon.MkElemCase(other, oreprs[0])
+				mode := []string{"trap", "canary"}[(i+j)%2]
+				cs := &c15Case{Kind: "ptr", Fn: fn, Mode: mode, E: &e, EA: &ea, S: svals[(i+j)%len(svals)], SA: fmt.Sprintf("%x", i*7+j), SB: fmt.Sprintf("%x", j+1), U: uint64(j), NonCanon: true}
+				c.Structured(func() any { return cs })
+			}
 		}
 	}
 
@@ -262,6 +281,8 @@ func c15Run(c *mon.Ctx, csAny any) {
 		c15RunPtr(c, cs)
 	case "fresh":
 		c15RunFresh(c, cs)
+	case "retain":
+		c15RunRetain(c, cs)
 	default:
 		panic("harness: unknown kind " + cs.Kind)
 	}
@@ -455,6 +476,14 @@ func c15RunPtr(c *mon.Ctx, cs *c15Case) {
 	secp256k1.VSetRaw(ea, oracle.ToMont(x, oracle.P), oracle.ToMont(y, oracle.P), oracle.ToMont(z, oracle.P))
 	sa.S = oracle.ToMont(mon.BigH(cs.SA), n)
 	sb.S = oracle.ToMont(mon.BigH(cs.SB), n)
+
+	if cs.NonCanon {
+		c.Count("ptr:non-canonical-scalar-args")
+		// limbs n + k (k < 2^256 - n), i.e. >= n: what a caller can write through the exported field
+		k := oracle.Mod(mon.BigH(cs.SA), new(big.Int).Sub(oracle.R, n))
+		sa.S = oracle.Limbs(new(big.Int).Add(n, k))
+		sb.S = oracle.Limbs(new(big.Int).Sub(oracle.R, big.NewInt(1+int64(cs.U%1000))))
+	}
 
 	eb, sab, sbb := mon.Snap(ea), sa.S, sb.S
 	e := cs.E.Build()
@@ -722,5 +751,115 @@ func c15RunFresh(c *mon.Ctx, cs *c15Case) {
 		}
 	default:
 		panic("harness: unknown fn " + cs.Fn)
+	}
+}
+
+// c15RunRetain: an object decoded from a caller-owned buffer must not retain that buffer.
+func c15RunRetain(c *mon.Ctx, cs *c15Case) {
+	p := cs.E.P.Pt()
+	sv := mon.BigH(cs.S)
+
+	var (
+		in   []byte
+		want []byte
+		enc  func() [][]byte
+		dec  func() error
+	)
+
+	e := secp256k1.Base().Double()
+	s := mon.Scal(big.NewInt(99))
+
+	switch cs.Fn {
+	case "Element.Decode", "Element.DecodeCompressed", "Element.UnmarshalBinary", "Element.DecodeHex":
+		want = oracle.EncC(p)
+	case "Element.DecodeUncompressed":
+		want = oracle.EncU(p)
+	default:
+		want = oracle.Bytes32(sv)
+	}
+
+	if p.IsInf() && (cs.Fn == "Element.DecodeCompressed" || cs.Fn == "Element.DecodeUncompressed") {
+		return // the identity has no compressed/uncompressed form of that length
+	}
+
+	in = append(make([]byte, 0, len(want)+16), want...) // caller buffer with spare capacity
+
+	isScalar := len(cs.Fn) > 7 && cs.Fn[:7] == "Scalar."
+	if isScalar {
+		enc = func() [][]byte { b, _ := s.MarshalBinary(); return [][]byte{s.Encode(), b} }
+	} else {
+		enc = func() [][]byte {
+			b, _ := e.MarshalBinary()
+			return [][]byte{e.Encode(), e.EncodeUncompressed(), e.XCoordinate(), b}
+		}
+	}
+
+	switch cs.Fn {
+	case "Element.Decode":
+		dec = func() error { return e.Decode(in) }
+	case "Element.DecodeCompressed":
+		dec = func() error { return e.DecodeCompressed(in) }
+	case "Element.DecodeUncompressed":
+		dec = func() error { return e.DecodeUncompressed(in) }
+	case "Element.UnmarshalBinary":
+		dec = func() error { return e.UnmarshalBinary(in) }
+	case "Element.DecodeHex":
+		dec = func() error { return e.DecodeHex(mon.H(in)) }
+	case "Scalar.Decode":
+		dec = func() error { return s.Decode(in) }
+	case "Scalar.UnmarshalBinary":
+		dec = func() error { return s.UnmarshalBinary(in) }
+	default:
+		panic("harness: unknown fn " + cs.Fn)
+	}
+
+	c.Eval(4)
+
+	if err := dec(); err != nil {
+		c.Fail(cs.Fn+" rejected a valid encoding: "+err.Error(), "retain-rejected:"+cs.Fn, nil)
+		return
+	}
+
+	first := enc()
+	for _, b := range first {
+		if rangesOverlap(b, in[:cap(in)]) {
+			c.Fail(cs.Fn+": an encoding returned after decoding aliases the caller's input buffer", "decode-retains-input:"+cs.Fn, nil)
+			return
+		}
+	}
+
+	// the caller reuses its buffer
+	for i := range in[:cap(in)] {
+		in[:cap(in)][i] ^= 0xff
+	}
+
+	snapshot := append([]byte{}, in[:cap(in)]...)
+	second := enc()
+
+	ref := want
+	if !isScalar {
+		ref = oracle.EncC(p)
+	}
+
+	if !bytes.Equal(second[0], ref) {
+		c.Fail(fmt.Sprintf("%s: after the caller overwrote its input buffer the decoded object encodes as %s, want %s (the object kept the buffer)", cs.Fn, mon.H(second[0]), mon.H(ref)), "decode-retains-input:"+cs.Fn, nil)
+		return
+	}
+
+	// writing to the encodings must not reach the buffer either
+	for _, b := range append(first, second...) {
+		full := b[:cap(b)]
+		for i := range full {
+			full[i] ^= 0x55
+		}
+	}
+
+	if !bytes.Equal(in[:cap(in)], snapshot) {
+		c.Fail(cs.Fn+": writing to an encoding changed the caller's input buffer", "decode-retains-input:"+cs.Fn, nil)
+		return
+	}
+
+	if third := enc(); !bytes.Equal(third[0], ref) {
+		c.Fail(cs.Fn+": writing to earlier encodings changed a later encoding of the decoded object", "result-not-fresh:"+cs.Fn, nil)
 	}
 }
